@@ -1052,6 +1052,9 @@ class ResilientAgent(Agent):
     def replicate(self, k: int):
         if self.replication_comp is not None:
             self._replication_level = k
+            # The level is also used when replacing the replicas lost with a
+            # removed agent and when deciding if a replica can be accepted.
+            self.replication_comp.k_target = k
             self.replication_comp.replicate(k)
 
     def setup_repair(self, repair_info):
